@@ -4,4 +4,21 @@ import ZarrsModel.Lemmas.MemConcPerms
 import ZarrsModel.Lemmas.MemConcStep
 import ZarrsModel.Lemmas.MemConcWF
 import ZarrsModel.Lemmas.MemConcAssemble
-/- helper lemmas for C18 (split over `Lemmas/MemConc*.lean` and `Lemmas/FsConc*.lean`) -/
+import ZarrsModel.Lemmas.MemConcInv
+import ZarrsModel.Lemmas.MemConcGhost
+import ZarrsModel.Lemmas.MemConcHist
+import ZarrsModel.Lemmas.MemConcLin
+import ZarrsModel.Lemmas.MemConcFinish
+import ZarrsModel.Lemmas.FsConc
+/- helper lemmas for C18, split over `Lemmas/MemConc*.lean` (MemoryStore protocol) and `Lemmas/FsConc*.lean`
+(FilesystemStore protocol):
+  MemConcPerms     completeness of `perms`; the executable checker agrees with `∃ order, isLinearization`
+  MemConcStep      accessors, case characterisation of `step .fixed`, function-level view and ghost-instrumented step
+  MemConcWF        well-formedness invariant (lock exclusivity etc.), list-level step refines view-level step
+  MemConcAssemble  from a ghost linearization list to `isLinearization`
+  MemConcInv       generic step facts, logical value of a cell, helped readers
+  MemConcGhost     ghost invariant and its preservation
+  MemConcHist      responses equal ghost responses; linearization times lie in the operation intervals
+  MemConcLin       induction over the schedule; linearizability; reads observe written values
+  MemConcFinish    the repaired protocol can always finish
+  FsConcInv/FsConc linearizability of the filesystem protocol -/
